@@ -1,11 +1,14 @@
 #!/bin/sh
-# usage: seedtest.sh <patch.diff> <check id> [<check id> ...]   -- runs the checks against a scratch worktree with the patch applied
+# usage: seedtest.sh <patch.diff> <check id> [<check id> ...]   -- runs the checks (of the tree this script lives in)
+# against a scratch worktree of /repo with the patch applied; /repo itself is not touched
 set -e
+HERE="$(cd "$(dirname "$0")" && pwd)"
 P="$1"; shift
 WT=/tmp/wt_seedtest_$$
 git -C /repo worktree add -q --detach "$WT" ${BASE:-HEAD}
 trap 'git -C /repo worktree remove --force "$WT" >/dev/null 2>&1' EXIT
 git -C "$WT" apply "$P"
 for c in "$@"; do
-  VERIF_REPO="$WT" VERIF_EVIDENCE_DIR=/tmp/evidence_seed VERIF_REPLAY_DIR=/tmp/replays_seed /verif/check "$c" --tier ${TIER:-quick} 2>&1 | grep -E "^(VIOLATION|KNOWN|BROKEN|C[0-9]+ tier)" | cut -c1-220 | awk '!seen[$1 $2]++ || /tier=/' | head -6
+  VERIF_REPO="$WT" VERIF_EVIDENCE_DIR=/tmp/evidence_seed_$$ VERIF_REPLAY_DIR=/tmp/replays_seed_$$ "$HERE/check" "$c" --tier ${TIER:-quick} 2>&1 | grep -E "^(VIOLATION|KNOWN|BROKEN|C[0-9]+ tier)" | cut -c1-220 | awk '!seen[$1 $2]++ || /tier=/' | head -6
 done
+rm -rf /tmp/evidence_seed_$$ /tmp/replays_seed_$$
